@@ -85,7 +85,7 @@ func runControl(def *PropertyDef, dir, name string) (cr ControlResult) {
 	fired := 0
 	var details []string
 	for _, o := range rep.Obs {
-		if strings.HasPrefix(o.Rule, cr.Rule) && (o.Status == Violated || (parts[0] == "good" && o.Status == Undecided)) {
+		if strings.HasPrefix(o.Rule, cr.Rule) && (o.Status == Violated || o.Status == Undecided) {
 			fired++
 			details = append(details, o.Rule+" "+o.Key+": "+o.Detail)
 		}
